@@ -196,6 +196,8 @@ def rec_summary(rec):
 def op_reader_run(req):
     from maflib.reader import MafReader
     given = scheme_by_annotation(req["given"]) if req.get("given") else None
+    if req.get("given_norestrict") is not None:
+        given = NoRestrictionsScheme(column_names=req["given_norestrict"])
     with LogCapture() as lc:
         try:
             reader = MafReader(lines=list(req["lines"]), validation_stringency=MODES[req.get("mode")], scheme=given)
